@@ -465,6 +465,30 @@ func init() {
 					}
 				})
 			}
+			// the empty pair: under skip-equals-for-empty-value a pair ("","") serializes to nothing, so the list can be non-empty
+			// while the query is null or empty; clearing the query must still empty the list, and a later mutation must not
+			// bring the pair back
+			for _, n := range []string{"", "skipEq"} {
+				cfg := defaultCfg
+				if n != "" {
+					cfg = cfgFromDesc(n)
+				}
+				starts := []string{"http://h/p", "http://h/p?", "http://h/p?=", "http://h/p?=&=", "sc:opaque", "http://h/p?a=1"}
+				seqs := [][]Op{
+					{{K: "a", A: "", B: ""}, {K: "s", W: 7, A: ""}, {K: "q", A: ""}, {K: "a", A: "a", B: "1"}, {K: "q", A: ""}},
+					{{K: "T"}, {K: "s", W: 7, A: ""}, {K: "q", A: ""}, {K: "a", A: "a", B: "1"}},
+					{{K: "a", A: "", B: ""}, {K: "a", A: "", B: ""}, {K: "s", W: 7, A: "?"}, {K: "q", A: ""}, {K: "t", A: "b", B: ""}},
+					{{K: "t", A: "", B: ""}, {K: "d", A: "a"}, {K: "s", W: 7, A: ""}, {K: "q", A: ""}, {K: "o"}, {K: "q", A: ""}},
+					{{K: "a", A: "", B: ""}, {K: "s", W: 8, A: "f"}, {K: "s", W: 7, A: ""}, {K: "a", A: "x", B: ""}, {K: "q", A: "x"}},
+				}
+				c.Pool.Run(len(starts)*len(seqs), func(d *Driver, i int) {
+					st, ops := starts[i%len(starts)], seqs[i/len(starts)]
+					hc := histCase{cfg, nil, st, ops, "empty-pair:" + n, i}
+					if h, _, _ := c.cmpHist(d, cfg, nil, st, ops, allButVerrs, "empty-pair:"+n, i); h != nil {
+						c12Replay(c, hc)
+					}
+				})
+			}
 			// under the diagnostics options a setter may stop at a validation error: URL and list must agree then too
 			for _, n := range []string{"fail", "report", "fail+report", "singlePct+lax", "specialAdd", "skipEq", "collapse+skipDrive", "queryC+squeryA"} {
 				cfg := cfgFromDesc(n)
